@@ -95,6 +95,13 @@ func (p *process) Invoke(msgs []Envelope) {
 				draining = nil
 			}
 			p.cleanup(pill.cancel)
+			// Whatever is left in this batch will never be processed: signal the
+			// poison pills, report the rest as dead letters.
+			for _, m := range msgs[i+1:] {
+				if _, isPill := m.Msg.(poisonPill); isPill || !pill.graceful {
+					p.discard(m)
+				}
+			}
 			return
 		}
 		p.invokeMsg(msg)
@@ -209,10 +216,40 @@ func (p *process) cleanup(cancel context.CancelFunc) {
 	}
 
 	p.inbox.Stop()
-	p.context.engine.Registry.Remove(p.pid)
+	// Stopped is handled while the PID is still registered: a Stop/Poison that
+	// finds the PID gone may signal its caller at once.
 	p.deliverStopped()
+	p.context.engine.Registry.Remove(p.pid)
 
 	p.context.engine.BroadcastEvent(ActorStoppedEvent{PID: p.pid, Timestamp: time.Now()})
+	p.flush()
+}
+
+// flush empties the stopped inbox: every poison pill that was still queued is
+// signalled, every other message is reported as a dead letter.
+func (p *process) flush() {
+	in, ok := p.inbox.(*Inbox)
+	if !ok {
+		return
+	}
+	for {
+		msgs, ok := in.rb.PopN(messageBatchSize)
+		if !ok {
+			return
+		}
+		for _, m := range msgs {
+			p.discard(m)
+		}
+	}
+}
+
+// discard disposes of a message that will never be processed.
+func (p *process) discard(m Envelope) {
+	if pill, ok := m.Msg.(poisonPill); ok {
+		pill.cancel()
+		return
+	}
+	p.context.engine.BroadcastEvent(DeadLetterEvent{Target: p.pid, Message: m.Msg, Sender: m.Sender})
 }
 
 func (p *process) PID() *PID { return p.pid }
